@@ -4,7 +4,9 @@ HARNESS = ["keyspace/c18_test.go"]
 GO_TEST = "TestVerifC18"
 RUN_MODULE = "Run_C18"
 COQ_TARGETS = ["Corr/Run_C18.vo", "Proofs/KeyspaceBase.vo", "Proofs/KeyspaceProofs.vo", "Proofs/KeyspaceAlloc.vo",
-               "Proofs/KeyspaceCovered.vo"]
+               "Proofs/KeyspaceCovered.vo", "Proofs/KeyspaceTrie.vo", "Proofs/KeyspaceSubtract.vo",
+               "Proofs/KeyspaceCoalesce.vo", "Proofs/KeyspaceNext.vo", "Proofs/KeyspaceGaps.vo",
+               "Proofs/KeyspaceRegions.vo", "Proofs/KeyspaceAssign.vo"]
 # N bounds the number of case indices (replay by index); campaign sizes derive from N/20 (see the harness).
 N = {"quick": 3000, "thorough": 30000}
 GO_TIMEOUT = {"quick": 600, "thorough": 3000}
@@ -109,5 +111,16 @@ def classify(desc, code):
 
 TECHNIQUE = ("Coq proof by induction on the trie structure of a Gallina transcription of the keyspace functions against set-theoretic "
              "definitions over the key set, differential correspondence (model and definitions evaluated in Coq on results of the real code)")
-LEVEL_TEXT = ""
-LEVEL_NOTE = ""
+LEVEL_TEXT = ("Theorems in coq/Props/C18.v hold for ALL well-formed tries, keys, targets, orders and r (induction on the trie, no bound): "
+              "AllocateToKClosest gives every item exactly min(r,|dests|) distinct destinations, the XOR-nearest, once each; FindPrefixOfKey, "
+              "FindSubtrie, PruneSubtrie, SubtractTrie, CoalesceTrie, NextNonEmptyLeaf (cyclic successor), AllEntries (sorted), KeyspaceCovered "
+              "(true iff the keys tile the keyspace), RegionsFromPeers (partition, tiling, >= r peers, order, minimality), AssignKeysToRegions "
+              "(every key in the regions of exactly one prefix) and ShortestCoveredPrefix (soundness w.r.t. a swarm) agree with their "
+              "set-theoretic definitions; TrieGaps is exact for the empty target and, for any target, exact for the effective target (an "
+              "ancestor of the target), with machine-checked counterexamples for the target itself (F13) and for short targets of "
+              "ShortestCoveredPrefix (F12). AddMany/Add keep tries well formed. Every run compares the real functions with the model and with "
+              "the definitions, exhaustively over prefix-free sets of strings of length <= 3 in the thorough tier.")
+LEVEL_NOTE = ("Proofs are about the Gallina transcription; the tie to the Go code is the correspondence run (differential, bounded by the generator). "
+              "Not proved (checked by correspondence only): the order of TrieGaps' result and sortBitstrKeysByOrder; absence of panic of "
+              "KeyspaceCovered on non-tiling tries; Remove/shrink; the helpers (SiblingPrefixes, ExtendBinaryPrefix, FirstFullKeyWithPrefix, "
+              "KeyToBytes, FlipLastBit) are their own definitions. Known finding: TrieGaps with a non-empty target (F13).")
